@@ -146,7 +146,8 @@ type c17JobCfg struct {
 	PodName      string        `json:"pod"`
 	PodNode      string        `json:"pod_node"`
 	TTL          time.Duration `json:"ttl"`
-	ExplicitMode bool          `json:"explicit_mode"`
+	Mode         string        `json:"spec_mode"` // spec.mode as the user wrote it: "" / ReservationFirst / EvictDirectly
+	DeleteOpts   bool          `json:"spec_delete_options"`
 	PendingPod   bool          `json:"pending_pod"`      // the target pod is an unscheduled pod: reservation owner is the pod itself
 	NeedPreempt  bool          `json:"need_preemption"`  // the reservation object answers NeedPreemption()==true
 	PreemptCalls int           `json:"preempt_calls"`    // Preempt reports completion on this call
@@ -162,23 +163,43 @@ type c17Cfg struct {
 	Jobs       []c17JobCfg `json:"jobs"`
 	Preemption bool        `json:"preemption_interpreter"`
 	Real       bool        `json:"real_interpreter"`
+	// controller-wide arguments that Reconcile reads (the object limiters stay off: they read the wall clock)
+	DefaultJobMode    string `json:"args_default_job_mode"` // "" / ReservationFirst / EvictDirectly, independent of spec.mode
+	DefaultDeleteOpts bool   `json:"args_default_delete_options"`
+}
+
+func c17PickMode(r *kit.Rand, empty, rf, direct int) string {
+	return []string{"", string(sev1alpha1.PodMigrationJobModeReservationFirst), string(sev1alpha1.PodMigrationJobModeEvictionDirectly)}[r.Weighted(empty, rf, direct)]
+}
+
+// c17ReservationFirst is the documented rule for a job's operating mode (pod_migration_job_types.go:
+// "Mode represents the operating mode of the Job. Default is PodMigrationJobModeReservationFirst";
+// MigrationControllerArgs.DefaultJobMode: "the default operating mode of the PodMigrationJob"): an explicit
+// spec.mode wins; an empty spec.mode falls back to the controller's default; an empty default is ReservationFirst.
+func c17ReservationFirst(specMode, defaultMode string) bool {
+	m := specMode
+	if m == "" {
+		m = defaultMode
+	}
+	return m != string(sev1alpha1.PodMigrationJobModeEvictionDirectly)
 }
 
 // c17GenCfgReal: configuration of a case of the real-interpreter unit (no preemption: the shipped
 // interpreter has none; TTLs are common because TTL clean-up through the real DeleteReservation is the point).
 func c17GenCfgReal(r *kit.Rand) *c17Cfg {
-	cfg := &c17Cfg{Real: true}
+	cfg := &c17Cfg{Real: true, DefaultJobMode: c17PickMode(r, 20, 50, 30), DefaultDeleteOpts: r.Pct(30)}
 	n := 1
 	if r.Pct(40) {
 		n = 2
 	}
 	for i := 0; i < n; i++ {
 		j := c17JobCfg{
-			Name:         fmt.Sprintf("job-%d", i),
-			PodName:      fmt.Sprintf("pod-%d", i),
-			PodNode:      kit.Pick(r, c17Nodes),
-			ExplicitMode: r.Pct(70),
-			PendingPod:   r.Pct(8),
+			Name:       fmt.Sprintf("job-%d", i),
+			PodName:    fmt.Sprintf("pod-%d", i),
+			PodNode:    kit.Pick(r, c17Nodes),
+			Mode:       c17PickMode(r, 38, 50, 12),
+			DeleteOpts: r.Pct(20),
+			PendingPod: r.Pct(8),
 		}
 		switch r.Weighted(15, 55, 30) {
 		case 1:
@@ -201,19 +222,20 @@ func c17GenCfgReal(r *kit.Rand) *c17Cfg {
 }
 
 func c17GenCfg(r *kit.Rand) *c17Cfg {
-	cfg := &c17Cfg{Preemption: r.Pct(25)}
+	cfg := &c17Cfg{Preemption: r.Pct(25), DefaultJobMode: c17PickMode(r, 20, 50, 30), DefaultDeleteOpts: r.Pct(30)}
 	n := 1
 	if r.Pct(40) {
 		n = 2
 	}
 	for i := 0; i < n; i++ {
 		j := c17JobCfg{
-			Name:         fmt.Sprintf("job-%d", i),
-			PodName:      fmt.Sprintf("pod-%d", i),
-			PodNode:      kit.Pick(r, c17Nodes),
-			ExplicitMode: r.Pct(70),
-			PendingPod:   r.Pct(12),
-			CreatedBy:    r.Pct(8),
+			Name:       fmt.Sprintf("job-%d", i),
+			PodName:    fmt.Sprintf("pod-%d", i),
+			PodNode:    kit.Pick(r, c17Nodes),
+			Mode:       c17PickMode(r, 38, 50, 12),
+			DeleteOpts: r.Pct(20),
+			PendingPod: r.Pct(12),
+			CreatedBy:  r.Pct(8),
 		}
 		switch r.Weighted(40, 35, 25) {
 		case 1:
@@ -423,6 +445,7 @@ type c17Job struct {
 	preemptDone     bool
 	afterTerminal   int
 	attempts        int
+	rf              bool // reservation-first by the documented rule (c17ReservationFirst), not by the controller's code
 }
 
 type c17Step struct {
@@ -539,8 +562,10 @@ func c17NewWorld(c *kit.Case, cfg *c17Cfg, faultAt int, kind c17Fault) *c17World
 				PodRef: &corev1.ObjectReference{Namespace: "default", Name: jc.PodName},
 			},
 		}
-		if jc.ExplicitMode {
-			job.Spec.Mode = sev1alpha1.PodMigrationJobModeReservationFirst
+		job.Spec.Mode = sev1alpha1.PodMigrationJobMode(jc.Mode)
+		j.rf = c17ReservationFirst(jc.Mode, cfg.DefaultJobMode)
+		if jc.DeleteOpts {
+			job.Spec.DeleteOptions = &metav1.DeleteOptions{GracePeriodSeconds: ptr.To[int64](7)}
 		}
 		if jc.TTL > 0 {
 			job.Spec.TTL = &metav1.Duration{Duration: jc.TTL}
@@ -616,7 +641,7 @@ func (w *c17World) restart() {
 	w.recGen++
 	w.rec = &Reconciler{
 		Client:                 w.faulty,
-		args:                   c17Args,
+		args:                   w.args(),
 		eventRecorder:          &events.FakeRecorder{},
 		reservationInterpreter: w.interpreter(),
 		evictorInterpreter:     &c17Evictor{w: w},
@@ -634,6 +659,17 @@ var (
 	c17PodGVR = corev1.SchemeGroupVersion.WithResource("pods")
 	c17ResGVR = sev1alpha1.GroupVersion.WithResource("reservations")
 )
+
+// args: the defaulted controller arguments with this case's DefaultJobMode / DefaultDeleteOptions.
+func (w *c17World) args() *deschedulerconfig.MigrationControllerArgs {
+	a := *c17Args
+	a.DefaultJobMode = w.cfg.DefaultJobMode
+	a.DefaultDeleteOptions = nil
+	if w.cfg.DefaultDeleteOpts {
+		a.DefaultDeleteOptions = &metav1.DeleteOptions{GracePeriodSeconds: ptr.To[int64](30)}
+	}
+	return &a
+}
 
 func (w *c17World) interpreter() reservation.Interpreter {
 	if w.real {
@@ -1025,9 +1061,16 @@ func (e *c17Evictor) Evict(ctx context.Context, job *sev1alpha1.PodMigrationJob,
 		w.c.Count("evict_of_replacement_pod", 1) // not forbidden by the statement; counted
 	}
 
-	// ---- ordering clause, judged against the environment's own state at this instant
+	if !j.rf {
+		// an evict-directly job (explicitly, or empty spec.mode under DefaultJobMode=EvictDirectly) is outside the
+		// ordering clause; terminal stability and at-most-once still apply to it
+		w.c.Count("evict_of_evict_directly_job", 1)
+		return e.issue(j, pod, st)
+	}
+	// ---- ordering clause (reservation-first jobs), judged against the environment's own state at this instant
 	if !r.live() {
-		w.fail("C17/evict/reservation-missing", "Evict(%s) while the job's reservation is %s; stamp %+v", j.cfg.Name, r, st)
+		sig := "C17/evict/reservation-missing"
+		w.fail(sig, "Evict(%s) while the job's reservation is %s (spec.mode=%q, args.DefaultJobMode=%q: reservation-first); stamp %+v", j.cfg.Name, r, j.cfg.Mode, w.cfg.DefaultJobMode, st)
 	}
 	switch r.state {
 	case c17ResPending, c17ResPendingUnsched:
@@ -1058,7 +1101,15 @@ func (e *c17Evictor) Evict(ctx context.Context, job *sev1alpha1.PodMigrationJob,
 	if w.real {
 		w.c.Count("evictions_checked_real_interpreter", 1)
 	}
+	if j.cfg.Mode != "" && w.cfg.DefaultJobMode == string(sev1alpha1.PodMigrationJobModeEvictionDirectly) {
+		w.c.Count("evict_ordering_checks_explicit_rf_under_default_direct", 1)
+	}
+	return e.issue(j, pod, st)
+}
 
+// issue: the at-most-once clause and the API call itself.
+func (e *c17Evictor) issue(j *c17Job, pod *corev1.Pod, st c17Stamp) error {
+	w := e.w
 	// ---- at most once, fault-free only
 	j.evictCalls++
 	if w.faultAt == 0 && j.evictCalls > 1 {
@@ -1400,7 +1451,7 @@ func (w *c17World) finish() {
 			st = "evicted"
 		}
 		w.c.Seen(len(w.jobs), j.cfg.TTL, j.cfg.PendingPod, j.cfg.NeedPreempt, w.cfg.Preemption, final.Status.Phase, reason, final.Status.Status, j.evictCalls, st,
-			w.res(j).String(), w.real, j.cfg.UserRes, w.faultKind, c17WriteClass(w.faultDesc), w.faultAfterEvict, j.afterTerminal > 0)
+			w.res(j).String(), w.real, j.cfg.UserRes, j.cfg.Mode, w.cfg.DefaultJobMode, w.faultKind, c17WriteClass(w.faultDesc), w.faultAfterEvict, j.afterTerminal > 0)
 	}
 }
 
@@ -1444,6 +1495,21 @@ func c17RunCase(c *kit.Case, cfg *c17Cfg) {
 	}
 	base.finish()
 	c.Count("histories_fault_free", 1)
+	c.Count("cases_default_job_mode_"+map[string]string{"": "empty"}[cfg.DefaultJobMode]+cfg.DefaultJobMode, 1)
+	for _, j := range base.jobs {
+		switch {
+		case !j.rf:
+			c.Count("jobs_evict_directly", 1)
+			if j.res != nil {
+				c.Count("converse_misses_evict_directly_job_created_reservation", 1)
+			}
+		case j.cfg.Mode != "" && cfg.DefaultJobMode == string(sev1alpha1.PodMigrationJobModeEvictionDirectly):
+			c.Count("jobs_explicit_reservation_first_under_default_evict_directly", 1)
+			c.Count("jobs_reservation_first", 1)
+		default:
+			c.Count("jobs_reservation_first", 1)
+		}
+	}
 	if cfg.Real {
 		c.Count("real_interpreter_histories", 1)
 		for _, j := range cfg.Jobs {
@@ -1508,7 +1574,7 @@ func c17RunCase(c *kit.Case, cfg *c17Cfg) {
 
 func TestVerifC17Reconcile(t *testing.T) {
 	kit.Run(t, kit.Config{Property: "C17", Unit: "reconcile", Quick: 480, Thorough: 20000,
-		Rule: "1-2 reservation-first jobs (TTL unset/15s/1h; 12% pending-pod mode; 25% with a scripted preemption interpreter), one fault-free history of 8-30 steps generated adaptively from {reconcile, reservation -> pending+unschedulable / scheduled(same|other node) / unschedulable / expired / deleted / bound(this|other pod), pod deleted / replaced by same name new UID (pending|old node|reservation node|third node) / scheduled, clock +5s / past TTL, controller restart}, ending with 2 reconciles per job; then the same script is re-executed with every single write k=1..n failing (nothing applied) and with every single write k applied-but-error (lost response); evaluations = executed histories (1+2n per case); non-trivial = the fault-free history evicted, reached a terminal phase and reconciled after it; distinct = (jobs, TTL, mode, final phase/reason/status, #evict calls, final reservation state, fault kind, class of the failed write, fault right after evict, reconciled after terminal)"},
+		Rule: "1-2 jobs, spec.mode in {empty 38%, ReservationFirst 50%, EvictDirectly 12%} and args.DefaultJobMode in {empty 20%, ReservationFirst 50%, EvictDirectly 30%} drawn independently (reservation-first by the documented rule: explicit mode wins, empty falls back to the default, empty default = ReservationFirst; the ordering clause is asserted for those jobs only), spec/args delete options set or not (TTL unset/15s/1h; 12% pending-pod mode; 25% with a scripted preemption interpreter), one fault-free history of 8-30 steps generated adaptively from {reconcile, reservation -> pending+unschedulable / scheduled(same|other node) / unschedulable / expired / deleted / bound(this|other pod), pod deleted / replaced by same name new UID (pending|old node|reservation node|third node) / scheduled, clock +5s / past TTL, controller restart}, ending with 2 reconciles per job; then the same script is re-executed with every single write k=1..n failing (nothing applied) and with every single write k applied-but-error (lost response); evaluations = executed histories (1+2n per case); non-trivial = the fault-free history evicted, reached a terminal phase and reconciled after it; distinct = (jobs, TTL, mode, final phase/reason/status, #evict calls, final reservation state, fault kind, class of the failed write, fault right after evict, reconciled after terminal)"},
 		func(c *kit.Case) { c17RunCase(c, c17GenCfg(c.R)) })
 }
 
